@@ -274,12 +274,14 @@ def build(seed, tier, focus='all'):
     flat_inner = c.struct([field("width", U), field("label", O), field("extra", V, default="trait")])
     flat_mid = c.struct([field("depth", U, default="trait"), field("rest", ty("recv", flat_inner), flatten=True)])
     # `allow_unknown_fields = false` written out on the enum (the same as not writing it), a struct variant under it
+    # a skipped variant is never produced - not even when it also claims the bare word
+    e_skipword = c.enum([c.variant("Plain"), c.variant("Ghost", skip=True, word=True), c.variant("Other", rename="oth")])
     e_strict = c.enum([c.variant("Plain"), c.variant("Hello", style="struct", rename="hi", fields=[field("user", V), field("silent", B, default="trait")])])
     c.decls[e_strict - 1]["allow_unknown_false"] = True
     # a struct variant is parsed as a struct receiver: its own flatten member receives what it does not know
     e_flat = c.enum([c.variant("Off"), c.variant("Tuned", style="struct", fields=[field("level", U), field("extra", ty("recv", flat_inner), flatten=True)])],
                     rename_all="snake_case")
-    enums = [e_plain, e_mixed, e_word, e_fn, e_pascal, e_strict, e_flat]
+    enums = [e_plain, e_mixed, e_word, e_fn, e_pascal, e_strict, e_flat, e_skipword]
 
     # --- FromMeta roots: every single option on the designated field, each crossed with container options
     def root(fields, **kw):
